@@ -6,7 +6,7 @@
 //! script := nm  ntasks  task*            modules = 1 + nm % 2 ("a", "b")
 //! task   := len [ mod start step* ]      module = mod % modules; start = 0: spawned by
 //!                                        at_sim_start, else by a message delivered at `start`
-//! step   := 1 d | 2 t | 3 d k x | 4 f a b | 5 p beh k b1..bk | 6 f d1 d2 | 7 d | 8 | 9 ch d | 10 ch | 11 d ch | 12 f ch d
+//! step   := 1 d | 2 t | 3 d k x | 4 f a b | 5 p beh k b1..bk | 6 f d1 d2 | 7 d | 8 | 9 ch d | 10 ch | 11 d ch | 12 f ch d | 13 f d0 d2 x d3
 //!   1 sleep(d)            2 sleep_until(t)       3 timeout(d, k even: sleep(x) / k odd: Flip)
 //!   4 select!{ sleep(a) => 0, sleep(b) => 1 }, f odd = `biased;`
 //!   5 interval(max(1,p)), behaviour beh%3 (0 Burst 1 Delay 2 Skip), k ticks, sleep(b_i) after tick i if b_i > 0
@@ -16,6 +16,10 @@
 //!   10 receive a boxed Sleep from channel ch of the task's module (log), then await it (log)
 //!   11 timeout(d, receive from channel ch); a received Sleep is dropped
 //!   12 select!{ biased; x = receive from ch => 0 (x dropped), sleep(d) => 1 }, f odd: the receive branch comes first
+//!   13 keep-alive timer: Box::pin(sleep(d0)) polled once, reset(now + d2); select!{ biased; it => 0, sleep(x) => 1 };
+//!      on 1: f odd: reset(now + d3) and await, f even: drop
+//! A duration >= 2^61 stands for Duration::MAX (steps 3 4 6 7 11 12 13): `now + d` is SimTime::MAX at now = 0 and not
+//! representable later (Sleep::far_future); a reset target >= 2^61 is SimTime::MAX. SimTime::MAX is printed as 2^62 - 1.
 //! A task spawned by a message (start > 0) that sends at once is a message event whose handler sends on a channel.
 //!
 //! Output := (len log.. fin)*  ok  end_time  snapshot*
@@ -103,6 +107,35 @@ fn ns(d: u64) -> Duration {
     Duration::from_nanos(d)
 }
 
+const FARK: u64 = 1 << 61;
+const TMAX: u64 = (1 << 62) - 1;
+
+/// duration of a timer that may be a far-future one
+fn fdur(d: u64) -> Duration {
+    if d >= FARK {
+        Duration::MAX
+    } else {
+        Duration::from_nanos(d)
+    }
+}
+
+/// reset target `base + d`
+fn fdl(base: SimTime, d: u64) -> SimTime {
+    if d >= FARK {
+        SimTime::MAX
+    } else {
+        base + ns(d)
+    }
+}
+
+fn tnum(t: SimTime) -> u64 {
+    if t == SimTime::MAX {
+        TMAX
+    } else {
+        t.as_nanos() as u64
+    }
+}
+
 fn log(k: usize, rec: &[u64]) {
     LOGS.lock().unwrap()[k].extend_from_slice(rec);
 }
@@ -121,6 +154,7 @@ enum Step {
     RecvAwait(u64),
     TimeoutRecv(u64, u64),
     SelRecv(bool, u64, u64),
+    Keep(bool, u64, u64, u64, u64),
 }
 
 #[derive(Clone, Debug)]
@@ -202,6 +236,10 @@ fn dec_steps(b: &[u64]) -> Vec<Step> {
                 out.push(Step::SelRecv(b[i + 1] % 2 == 1, b[i + 2], b[i + 3]));
                 i += 4;
             }
+            13 if left >= 5 => {
+                out.push(Step::Keep(b[i + 1] % 2 == 1, b[i + 2], b[i + 3], b[i + 4], b[i + 5]));
+                i += 6;
+            }
             _ => break,
         }
     }
@@ -220,24 +258,24 @@ async fn interpret(k: usize, m: u64, steps: Vec<Step>) {
                 log(k, &[now()]);
             }
             Step::Timeout(d, Some(x)) => {
-                let r = timeout(ns(d), sleep(ns(x))).await;
+                let r = timeout(fdur(d), sleep(ns(x))).await;
                 log(k, &[now(), r.is_ok() as u64]);
             }
             Step::Timeout(d, None) => {
-                let r = timeout(ns(d), Flip(false)).await;
+                let r = timeout(fdur(d), Flip(false)).await;
                 log(k, &[now(), r.is_ok() as u64]);
             }
             Step::Select(biased, a, b) => {
                 let br: u64 = if biased {
                     tokio::select! {
                         biased;
-                        _ = sleep(ns(a)) => 0,
-                        _ = sleep(ns(b)) => 1,
+                        _ = sleep(fdur(a)) => 0,
+                        _ = sleep(fdur(b)) => 1,
                     }
                 } else {
                     tokio::select! {
-                        _ = sleep(ns(a)) => 0,
-                        _ = sleep(ns(b)) => 1,
+                        _ = sleep(fdur(a)) => 0,
+                        _ = sleep(fdur(b)) => 1,
                     }
                 };
                 // an unbiased select between equal deadlines picks its branch by tokio's seeded RNG
@@ -263,7 +301,7 @@ async fn interpret(k: usize, m: u64, steps: Vec<Step>) {
             }
             Step::Reset(polled, d1, d2) => {
                 let base = SimTime::now();
-                let s = sleep(ns(d1));
+                let s = sleep(fdur(d1));
                 tokio::pin!(s);
                 if polled {
                     poll_fn(|cx| {
@@ -272,12 +310,12 @@ async fn interpret(k: usize, m: u64, steps: Vec<Step>) {
                     })
                     .await;
                 }
-                s.as_mut().reset(base + ns(d2));
+                s.as_mut().reset(fdl(base, d2));
                 s.await;
                 log(k, &[now()]);
             }
             Step::DropSleep(d) => {
-                let mut s = Box::pin(sleep(ns(d)));
+                let mut s = Box::pin(sleep(fdur(d)));
                 poll_fn(|cx| {
                     let _ = s.as_mut().poll(cx);
                     Poll::Ready(())
@@ -298,7 +336,7 @@ async fn interpret(k: usize, m: u64, steps: Vec<Step>) {
                 log(k, &[now()]);
             }
             Step::TimeoutRecv(d, ch) => {
-                let r = timeout(ns(d), Recv { key: (m, ch), k }).await;
+                let r = timeout(fdur(d), Recv { key: (m, ch), k }).await;
                 let ok = r.is_ok();
                 drop(r);
                 log(k, &[now(), ok as u64]);
@@ -308,16 +346,41 @@ async fn interpret(k: usize, m: u64, steps: Vec<Step>) {
                     tokio::select! {
                         biased;
                         x = Recv { key: (m, ch), k } => { drop(x); 0 },
-                        _ = sleep(ns(d)) => 1,
+                        _ = sleep(fdur(d)) => 1,
                     }
                 } else {
                     tokio::select! {
                         biased;
-                        _ = sleep(ns(d)) => 1,
+                        _ = sleep(fdur(d)) => 1,
                         x = Recv { key: (m, ch), k } => { drop(x); 0 },
                     }
                 };
                 log(k, &[now(), br]);
+            }
+            Step::Keep(rearm, d0, d2, x, d3) => {
+                let base = SimTime::now();
+                let mut s = Box::pin(sleep(fdur(d0)));
+                poll_fn(|cx| {
+                    let _ = s.as_mut().poll(cx);
+                    Poll::Ready(())
+                })
+                .await;
+                s.as_mut().reset(fdl(base, d2));
+                let r: u64 = tokio::select! {
+                    biased;
+                    _ = &mut s => 0,
+                    _ = sleep(ns(x)) => 1,
+                };
+                log(k, &[now(), r]);
+                if r == 1 {
+                    if rearm {
+                        s.as_mut().reset(fdl(SimTime::now(), d3));
+                        s.await;
+                    } else {
+                        drop(s);
+                    }
+                    log(k, &[now()]);
+                }
             }
             Step::RecvAwait(ch) => {
                 let s = Recv { key: (m, ch), k }.await;
@@ -424,10 +487,10 @@ fn run_line(nums: &[u64]) -> Vec<u64> {
             };
             snaps.extend([t, m as u64, slots.len() as u64]);
             for (d, n) in slots {
-                snaps.extend([d.as_nanos() as u64, n as u64]);
+                snaps.extend([tnum(d), n as u64]);
             }
             match nw {
-                Some(x) => snaps.extend([1, x.as_nanos() as u64]),
+                Some(x) => snaps.extend([1, tnum(x)]),
                 None => snaps.extend([0, 0]),
             }
         }
